@@ -392,3 +392,183 @@ def splice_and_compile(arg: dict) -> dict:
 
 def splice_and_compile_many(args: list[dict]) -> list[dict]:
     return [splice_and_compile(a) for a in args]
+# ----------------------------------------------------------------------------------------------------------------------
+# C05: macros, imports, file layouts
+# ----------------------------------------------------------------------------------------------------------------------
+ROOT_TOKEN = "{ROOT}"
+TMP_PREFIX = "esv_c05_"
+
+
+def macro_paths(compiler: Any) -> dict:
+    """{name: (included__absolute_path, included__relative_path)} for `compiler.macros` (dict order kept)"""
+    return {name: (m.included__absolute_path, m.included__relative_path) for name, m in compiler.macros.items()}
+
+
+def _recording_classes() -> Any:
+    """a subclass of the compiler that records, per compile() call (main file and every imported file): the file actually
+    compiled, the raw imports, what `_resolve_imported_file` returned, the keys of `in_macros` given to
+    MacroResolutionOrderVisitor and the order it computed.  The bodies executed are the current /repo code."""
+    import re
+    from explorerscript.ssb_converting import ssb_compiler as sc
+    log: list[dict] = []
+    stack: list[dict] = []
+    base_visitor = getattr(sc.MacroResolutionOrderVisitor, "_esv_base", sc.MacroResolutionOrderVisitor)
+
+    class RecVisitor(base_visitor):  # type: ignore
+        _esv_base = base_visitor
+
+        def __init__(self, in_macros: Any):
+            if stack:
+                stack[-1]["in_macros"] = list(in_macros.keys())
+            super().__init__(in_macros)
+
+        def visitStart(self, ctx: Any) -> Any:
+            try:
+                r = super().visitStart(ctx)
+            except BaseException as e:  # noqa
+                if stack:
+                    m = re.search(r"for macro '([^']*)'", str(e))
+                    stack[-1]["order_error"] = [type(e).__name__, m.group(1) if m else str(e)[:100]]
+                raise
+            if stack:
+                stack[-1]["order"] = list(r)
+            return r
+
+    class RecCompiler(sc.ExplorerScriptSsbCompiler):  # type: ignore
+        def compile(self, src: str, file_name: str, macros_only: bool = False, original_base_file: Any = None) -> Any:
+            entry: dict = {"file": file_name, "macros_only": macros_only, "depth": len(stack)}
+            log.append(entry)
+            stack.append(entry)
+            try:
+                return super().compile(src, file_name, macros_only, original_base_file)
+            except BaseException as e:  # noqa
+                entry["raised"] = type(e).__name__
+                raise
+            finally:
+                stack.pop()
+
+        def _resolve_imported_file(self, dir_name: str) -> Any:
+            e = stack[-1] if stack else {}
+            e["dir"] = dir_name
+            e["imports"] = list(self.imports)
+            e["lookup"] = list(self.lookup_paths)
+            try:
+                r = super()._resolve_imported_file(dir_name)
+            except BaseException as ex:  # noqa
+                e["resolve_error"] = [type(ex).__name__, str(ex)[:200]]
+                raise
+            e["resolved"] = list(r)
+            return r
+
+    return sc, RecVisitor, RecCompiler, log
+
+
+def compile_layout(arg: dict) -> dict:
+    """arg: {"files": {relpath: text}, "dirs": [relpath], "main": relpath, "lookup": [str], "run": id}
+    `{ROOT}` in texts and lookup paths stands for the temporary root directory (created under /tmp, always removed).
+    Returns the routine set JSON + macro order + macro paths + per-file log, every path with the root replaced by `{ROOT}`."""
+    import shutil
+    import tempfile
+    root = os.path.realpath(tempfile.mkdtemp(prefix=TMP_PREFIX + str(arg.get("run", "x")) + "_", dir="/tmp"))
+    assert root.startswith("/tmp/") and "/repo" not in root and "/verif" not in root
+
+    def unroot(x: Any) -> Any:
+        if isinstance(x, str):
+            return x.replace(root, ROOT_TOKEN)
+        if isinstance(x, (list, tuple)):
+            return [unroot(y) for y in x]
+        if isinstance(x, dict):
+            return {unroot(k): unroot(v) for k, v in x.items()}
+        return x
+
+    sc, RecVisitor, RecCompiler, log = _recording_classes()
+    saved = sc.MacroResolutionOrderVisitor
+    out: dict
+    try:
+        files = dict(arg.get("files") or {})
+        if arg.get("asts"):
+            # surface ASTs are printed here, in the worker (the printer is harness code; this only moves the work off the
+            # single-threaded parent)
+            from .gen import surface
+            for rel, ast in arg["asts"].items():
+                files[rel] = surface.print_program(ast)[0]
+        for d in arg.get("dirs", []):
+            os.makedirs(os.path.join(root, d), exist_ok=True)
+        for rel, text in files.items():
+            p = os.path.join(root, rel)
+            os.makedirs(os.path.dirname(p), exist_ok=True)
+            with open(p, "w", encoding="utf-8") as fh:
+                fh.write(text.replace(ROOT_TOKEN, root))
+        tree = []
+        for dp, _dns, fns in os.walk(root):
+            tree.append(dp)
+            tree += [os.path.join(dp, f) for f in fns]
+        main = os.path.join(root, arg["main"])
+        lookup = [lp.replace(ROOT_TOKEN, root) for lp in arg.get("lookup", [])]
+        sc.MacroResolutionOrderVisitor = RecVisitor
+        c = RecCompiler(arg.get("perf", PERF_VAR), lookup)
+        try:
+            with open(main, encoding="utf-8") as fh:
+                c.compile(fh.read(), main)
+            out = rsjson.rs_to_json(c.routine_infos, c.routine_ops, c.named_coroutines)
+            # source-map macro entries, reduced to (relative file, macro name, count)
+            pairs: dict = {}
+            if c.source_map is not None:
+                for _off, m in c.source_map.collect_mappings__macros():
+                    key = (m.relpath_included_file, m.macro_name)
+                    pairs[key] = pairs.get(key, 0) + 1
+            out["sm_macros"] = [[k[0], k[1], v] for k, v in pairs.items()]
+            if arg.get("full_source_map"):
+                out["source_map"] = sm_json(c.source_map)
+        except BaseException as e:  # noqa
+            out = _exc(e)
+        out["macro_order"] = list(c.macro_resolution_order)
+        out["macros"] = {k: list(v) for k, v in macro_paths(c).items()}
+        out["log"] = log
+        out["tree"] = tree if len(files) > 1 or arg.get("dirs") else [root, os.path.dirname(main), main]
+        out["tree_files"] = [x for x in out["tree"] if os.path.isfile(x)]
+        out["cwd"] = os.getcwd()
+        out = unroot(out)
+    finally:
+        sc.MacroResolutionOrderVisitor = saved
+        shutil.rmtree(root, ignore_errors=True)
+    return out
+
+
+def compile_layouts(args: list[dict]) -> list[dict]:
+    return [compile_layout(a) for a in args]
+
+
+def resolve_many(arg: dict) -> dict:
+    """direct calls of the real `_resolve_imported_file` on a temporary tree.
+    arg: {"files": [rel], "dirs": [rel], "queries": [{"dir", "lookup": [...], "imports": [...]}], "run"}; `{ROOT}` = the tree's root"""
+    import shutil
+    import tempfile
+    from explorerscript.ssb_converting.ssb_compiler import ExplorerScriptSsbCompiler
+    root = os.path.realpath(tempfile.mkdtemp(prefix=TMP_PREFIX + str(arg.get("run", "x")) + "_", dir="/tmp"))
+    assert root.startswith("/tmp/") and "/repo" not in root and "/verif" not in root
+    try:
+        for d in arg.get("dirs", []):
+            os.makedirs(os.path.join(root, d), exist_ok=True)
+        for rel in arg["files"]:
+            p = os.path.join(root, rel)
+            os.makedirs(os.path.dirname(p), exist_ok=True)
+            with open(p, "w") as fh:
+                fh.write("")
+        tree = []
+        for dp, _dns, fns in os.walk(root):
+            tree.append(dp)
+            tree += [os.path.join(dp, f) for f in fns]
+        answers = []
+        for q in arg["queries"]:
+            c = ExplorerScriptSsbCompiler(PERF_VAR, [lp.replace(ROOT_TOKEN, root) for lp in q["lookup"]])
+            c.imports = [i.replace(ROOT_TOKEN, root) for i in q["imports"]]
+            try:
+                r = c._resolve_imported_file(q["dir"].replace(ROOT_TOKEN, root))
+                answers.append({"ok": [p.replace(root, ROOT_TOKEN) for p in r]})
+            except BaseException as e:  # noqa
+                answers.append({"err": type(e).__name__, "msg": str(e)[:200].replace(root, ROOT_TOKEN)})
+        return {"tree": [t.replace(root, ROOT_TOKEN) for t in tree], "tree_files": [t.replace(root, ROOT_TOKEN) for t in tree if os.path.isfile(t)],
+                "answers": answers, "cwd": os.getcwd()}
+    finally:
+        shutil.rmtree(root, ignore_errors=True)
